@@ -367,4 +367,44 @@ theorem formatClock_isSome (tm : Tm) (h : tm.year ≤ 9999) : (formatClock tm).i
   unfold formatClock strftimeDate strftimeDatetime year4
   simp [h]
 
+/-! `%d` prints the decimal numeral -/
+
+open Percival.Spec.AwsRequests (decimalValue)
+
+theorem digit_toNat (n : Nat) : (digit n).toNat = 48 + n % 10 := by
+  unfold digit
+  rw [UInt8.toNat_ofNat']
+  omega
+
+theorem decimalValue_snoc (s : Bytes) (c : UInt8) : decimalValue (s ++ [c]) = 10 * decimalValue s + (c.toNat - 48) := by
+  simp [decimalValue, List.foldl_append]
+
+theorem decimalNat_value (n : Nat) : decimalValue (decimalNat n) = n := by
+  induction n using decimalNat.induct with
+  | case1 n h => unfold decimalNat; simp [h, decimalValue, digit_toNat]
+  | case2 n h ih =>
+    unfold decimalNat; simp only [h, if_false]
+    rw [decimalValue_snoc, ih, digit_toNat]; omega
+
+theorem decimalNat_digits (n : Nat) : ∀ c ∈ decimalNat n, 48 ≤ c.toNat ∧ c.toNat ≤ 57 := by
+  induction n using decimalNat.induct with
+  | case1 n h => unfold decimalNat; simp [h, digit_toNat]; omega
+  | case2 n h ih =>
+    unfold decimalNat; simp only [h, if_false]
+    intro c hc
+    simp only [List.mem_append, List.mem_singleton] at hc
+    rcases hc with hc | hc
+    · exact ih c hc
+    · subst hc; rw [digit_toNat]; omega
+
+/-- no leading zero, except for `0` itself -/
+theorem decimalNat_head (n : Nat) : ∃ c r, decimalNat n = c :: r ∧ (c.toNat = 48 → n = 0) := by
+  induction n using decimalNat.induct with
+  | case1 n h => unfold decimalNat; simp [h, digit_toNat]; omega
+  | case2 n h ih =>
+    unfold decimalNat; simp only [h, if_false]
+    obtain ⟨c, r, e, hz⟩ := ih
+    refine ⟨c, r ++ [digit n], by rw [e]; rfl, ?_⟩
+    intro hc; have := hz hc; omega
+
 end Percival.Proofs.AwsSign
